@@ -1,0 +1,162 @@
+//go:build verif
+
+package fs
+
+// Contracts for GoVC (see /verif/DESIGN.md). Comment-only file behind the build tag `verif`.
+//
+// Abstract file system shared by every FileSystem implementation. A File handle (or any other
+// reader object) h designates a file identity fidOf[h]; contents, length and durable length
+// belong to the identity, position and open-ness to the handle. A directory maps names to
+// identities (0 = no such file).
+
+//@ ghost var fidOf map[ref]ref
+//@ ghost var fData map[ref]mem
+//@ ghost var fLen map[ref]int64
+//@ ghost var fDur map[ref]int64
+//@ ghost var hPos map[ref]int64
+//@ ghost var hOpen map[ref]bool
+//@ ghost var dirFid map[ref]map[string]ref
+//@ ghost var fidName map[ref]string
+//@ ghost var infoSize map[ref]int64
+//@ ghost var infoName map[ref]string
+//@ ghost var lockHeld map[ref]map[string]bool
+//@ ghost var lockFS map[ref]ref
+//@ ghost var lockName map[ref]string
+
+// isIOErr(e): e is an error reported by the underlying storage (or a use of a closed handle).
+// Nothing is known about such errors except that they are not one of the sentinels.
+//@ spec func isIOErr(e error) bool
+//@ axiom ioerr-not-sentinel: !isIOErr(nil) && !isIOErr(io.EOF) && !isIOErr(io.ErrUnexpectedEOF) && !isIOErr(os.ErrExist)
+
+//@ spec func fid(f File) ref = fidOf[f]
+//@ spec func min64(a int64, b int64) int64 = ite(a < b, a, b)
+//@ spec func max64(a int64, b int64) int64 = ite(a < b, b, a)
+
+// Invariant of the abstract state for an open handle.
+//@ spec func fileOK(f File) bool = f != nil && fidOf[f] != 0 && 0 <= fDur[fidOf[f]] && fDur[fidOf[f]] <= fLen[fidOf[f]] && fLen[fidOf[f]] <= 0x1000000000000
+
+//@ func (f File) WriteAt(p []byte, off int64) (n int, err error)
+//@   requires off: off >= 0 && off <= 0x1000000000000
+//@   requires ok: fileOK(f)
+//@   ensures toobig: off + int64(len(p)) > 0x1000000000000 ==> err != nil
+//@   ensures n: err == nil ==> n == len(p)
+//@   ensures len: err == nil ==> fLen[fid(f)] == max64(old(fLen[fid(f)]), off+int64(len(p)))
+//@   ensures data: err == nil ==> forall q int :: fData[fid(f)][q] == ite(off <= q && q < off+len(p), contents(p)[off(p) + (q - int(off))], ite(q < old(fLen[fid(f)]), old(fData[fid(f)])[q], 0))
+//@   ensures dur: err == nil ==> fDur[fid(f)] == min64(old(fDur[fid(f)]), off)
+//@   ensures err: err != nil ==> isIOErr(err)
+//@   ensures closed: !hOpen[f] ==> err != nil
+//@   ensures ok: fileOK(f)
+//@   modifies fData[fidOf[f]], fLen[fidOf[f]], fDur[fidOf[f]]
+
+//@ func (f File) Truncate(size int64) (err error)
+//@   requires size: size >= 0
+//@   requires ok: fileOK(f)
+//@   ensures toobig: size > 0x1000000000000 ==> err != nil
+//@   ensures len: err == nil ==> fLen[fid(f)] == size
+//@   ensures data: err == nil ==> forall q int :: fData[fid(f)][q] == ite(q < old(fLen[fid(f)]) && q < size, old(fData[fid(f)])[q], 0)
+//@   ensures dur: err == nil ==> fDur[fid(f)] == min64(old(fDur[fid(f)]), size)
+//@   ensures err: err != nil ==> isIOErr(err)
+//@   ensures closed: !hOpen[f] ==> err != nil
+//@   ensures ok: fileOK(f)
+//@   modifies fData[fidOf[f]], fLen[fidOf[f]], fDur[fidOf[f]]
+
+//@ func (f File) Sync() (err error)
+//@   requires ok: fileOK(f)
+//@   ensures dur: err == nil ==> fDur[fid(f)] == fLen[fid(f)]
+//@   ensures err: err != nil ==> isIOErr(err)
+//@   ensures closed: !hOpen[f] ==> err != nil
+//@   ensures ok: fileOK(f)
+//@   modifies fDur[fidOf[f]]
+
+//@ func (f File) Slice(start int64, end int64) (s []byte, err error)
+//@   requires range: 0 <= start && start <= end
+//@   requires ok: fileOK(f)
+//@   ensures eof: end > fLen[fid(f)] ==> err != nil
+//@   ensures len: err == nil ==> len(s) == end - start && end <= fLen[fid(f)]
+//@   ensures data: err == nil ==> sameBytes(contents(s), off(s), fData[fid(f)], int(start), len(s))
+//@   ensures err: err != nil ==> (isIOErr(err) || err == io.EOF) && len(s) == 0
+//@   ensures closed: !hOpen[f] ==> err != nil
+
+//@ func (f File) Seek(offset int64, whence int) (pos int64, err error)
+//@   requires ok: fileOK(f)
+//@   ensures start: err == nil && whence == 0 ==> pos == offset && hPos[f] == offset
+//@   ensures cur: err == nil && whence == 1 ==> pos == old(hPos[f]) + offset && hPos[f] == pos
+//@   ensures end: err == nil && whence == 2 ==> pos == fLen[fid(f)] + offset && hPos[f] == pos
+//@   ensures err: err != nil ==> isIOErr(err)
+//@   ensures closed: !hOpen[f] ==> err != nil
+//@   modifies hPos[f]
+
+//@ func (f File) Read(p []byte) (n int, err error)
+//@   requires ok: fileOK(f)
+//@   ensures n: 0 <= n && n <= len(p) && (err == nil ==> n <= fLen[fid(f)] - old(hPos[f]))
+//@   ensures pos: hPos[f] == old(hPos[f]) + int64(n)
+//@   ensures data: sameBytes(contents(p), off(p), fData[fid(f)], int(old(hPos[f])), n)
+//@   ensures frame: forall q int :: (q < off(p) || q >= off(p)+n) ==> contents(p)[q] == old(contents(p))[q]
+//@   ensures eof: len(p) > 0 && old(hPos[f]) >= fLen[fid(f)] && !isIOErr(err) ==> n == 0 && err == io.EOF
+//@   ensures progress: len(p) > 0 && old(hPos[f]) < fLen[fid(f)] && err == nil ==> n > 0
+//@   ensures err: err != nil ==> isIOErr(err) || err == io.EOF
+//@   ensures closed: !hOpen[f] ==> err != nil
+//@   modifies hPos[f], p[*]
+
+//@ func (f File) Stat() (info os.FileInfo, err error)
+//@   requires ok: fileOK(f)
+//@   ensures size: err == nil ==> info != nil && infoSize[info] == fLen[fid(f)] && infoName[info] == fidName[fid(f)]
+//@   ensures err: err != nil ==> isIOErr(err)
+//@   ensures closed: !hOpen[f] ==> err != nil
+
+//@ func (f File) Close() (err error)
+//@   requires ok: f != nil
+//@   ensures closed: err == nil ==> !hOpen[f]
+//@   ensures was: !old(hOpen[f]) ==> err != nil
+//@   ensures err: err != nil ==> isIOErr(err)
+//@   modifies hOpen[f]
+
+// Flags of OpenFile as pogreb uses them: os.O_RDONLY = 0, os.O_RDWR = 2, os.O_CREATE = 0x40, os.O_TRUNC = 0x200 (unix).
+//@ func (fsys FileSystem) OpenFile(name string, flag int, perm os.FileMode) (f File, err error)
+//@   requires fs: fsys != nil
+//@   ensures absent: old(dirFid[fsys][name]) == 0 && flag & 0x40 == 0 ==> err != nil
+//@   ensures handle: err == nil ==> f != nil && fresh(f) && hOpen[f] && hPos[f] == 0 && fidOf[f] == dirFid[fsys][name] && fidOf[f] != 0 && fileOK(f) && fidName[fidOf[f]] == name
+//@   ensures same: err == nil && old(dirFid[fsys][name]) != 0 ==> dirFid[fsys][name] == old(dirFid[fsys][name])
+//@   ensures created: err == nil && old(dirFid[fsys][name]) == 0 ==> fLen[fidOf[f]] == 0 && fDur[fidOf[f]] == 0 && (forall h ref :: old(hOpen[h]) ==> old(fidOf[h]) != fidOf[f]) && (forall n string :: n != name ==> old(dirFid[fsys][n]) != fidOf[f])
+//@   ensures kept: err == nil && old(dirFid[fsys][name]) != 0 && flag & 0x200 == 0 ==> fLen[fidOf[f]] == old(fLen[dirFid[fsys][name]]) && fDur[fidOf[f]] == old(fDur[dirFid[fsys][name]]) && fData[fidOf[f]] == old(fData[dirFid[fsys][name]])
+//@   ensures trunc: err == nil && flag & 0x200 != 0 ==> fLen[fidOf[f]] == 0 && fDur[fidOf[f]] == 0
+//@   ensures others: forall n string :: n != name ==> dirFid[fsys][n] == old(dirFid[fsys][n])
+//@   ensures otherfiles: forall i ref :: i != dirFid[fsys][name] ==> fLen[i] == old(fLen[i]) && fDur[i] == old(fDur[i]) && fData[i] == old(fData[i]) && fidName[i] == old(fidName[i])
+//@   ensures otherhandles: forall h ref :: h != f ==> hOpen[h] == old(hOpen[h]) && hPos[h] == old(hPos[h]) && fidOf[h] == old(fidOf[h])
+//@   ensures err: err != nil ==> isIOErr(err) || old(dirFid[fsys][name]) == 0
+//@   modifies dirFid[fsys], fLen, fDur, fData, hOpen, hPos, fidOf, fidName
+
+//@ func (fsys FileSystem) Remove(name string) (err error)
+//@   requires fs: fsys != nil
+//@   ensures gone: err == nil ==> dirFid[fsys][name] == 0 && old(dirFid[fsys][name]) != 0
+//@   ensures others: forall n string :: n != name ==> dirFid[fsys][n] == old(dirFid[fsys][n])
+//@   ensures absent: old(dirFid[fsys][name]) == 0 ==> err != nil
+//@   ensures failed: err != nil ==> dirFid[fsys][name] == old(dirFid[fsys][name])
+//@   modifies dirFid[fsys]
+
+//@ func (fsys FileSystem) Rename(oldpath string, newpath string) (err error)
+//@   requires fs: fsys != nil
+//@   ensures moved: err == nil ==> dirFid[fsys][newpath] == old(dirFid[fsys][oldpath]) && (oldpath != newpath ==> dirFid[fsys][oldpath] == 0) && old(dirFid[fsys][oldpath]) != 0
+//@   ensures others: forall n string :: n != oldpath && n != newpath ==> dirFid[fsys][n] == old(dirFid[fsys][n])
+//@   ensures failed: err != nil ==> dirFid[fsys] == old(dirFid[fsys])
+//@   modifies dirFid[fsys]
+
+//@ func (fsys FileSystem) MkdirAll(path string, perm os.FileMode) (err error)
+//@   requires fs: fsys != nil
+//@   ensures err: err != nil ==> isIOErr(err)
+
+//@ func (fsys FileSystem) CreateLockFile(name string, perm os.FileMode) (l LockFile, existed bool, err error)
+//@   requires fs: fsys != nil
+//@   ensures held: old(lockHeld[fsys][name]) ==> err == os.ErrExist
+//@   ensures acquired: err == nil ==> l != nil && fresh(l) && existed == (old(dirFid[fsys][name]) != 0) && dirFid[fsys][name] != 0 && lockHeld[fsys][name] && lockFS[l] == fsys && lockName[l] == name
+//@   ensures others: forall n string :: n != name ==> dirFid[fsys][n] == old(dirFid[fsys][n]) && lockHeld[fsys][n] == old(lockHeld[fsys][n])
+//@   ensures failed: err != nil ==> dirFid[fsys] == old(dirFid[fsys]) && lockHeld[fsys] == old(lockHeld[fsys])
+//@   ensures err: err != nil && err != os.ErrExist ==> isIOErr(err)
+//@   modifies dirFid[fsys], lockHeld[fsys], lockFS, lockName
+
+//@ func (l LockFile) Unlock() (err error)
+//@   requires lock: l != nil
+//@   ensures released: err == nil ==> dirFid[lockFS[l]][lockName[l]] == 0 && !lockHeld[lockFS[l]][lockName[l]]
+//@   ensures others: forall n string :: n != lockName[l] ==> dirFid[lockFS[l]][n] == old(dirFid[lockFS[l]][n]) && lockHeld[lockFS[l]][n] == old(lockHeld[lockFS[l]][n])
+//@   ensures err: err != nil ==> isIOErr(err)
+//@   modifies dirFid[lockFS[l]], lockHeld[lockFS[l]]
